@@ -212,19 +212,33 @@ func sendCountRules(r *Run, prefix string) {
 	if send == nil {
 		r.ob(prefix+":flush-sends", "flush() sends with sendmsg", flush, nil, false, "no sendmsg call", false)
 	} else {
-		for _, sk := range findIns(flush, isOutM("Skip")) {
+		sent := func(v ssa.Value) bool {
+			ex, ok := v.(*ssa.Extract)
+			return ok && ex.Tuple == ssa.Value(send) && ex.Index == 0
+		}
+		// the Skip may sit in flush itself or in a helper flush hands the count to
+		ss := &Search{Fn: flush}
+		skips := ss.Reachable([]Start{After(send)}, isOutM("Skip"))
+		r.Visited += ss.Visited
+		for _, sk := range skips {
 			arg := argVal(callCommon(sk), 0)
-			ex, ok := arg.(*ssa.Extract)
-			same := ok && ex.Tuple == ssa.Value(send) && ex.Index == 0
-			r.ob(prefix+":flush-skips-sent-count", "flush() skips exactly the byte count sendmsg returned", flush, sk, same, "Skip("+shortVal(arg)+")", true)
-			pos := cmpAtom(func(v ssa.Value) bool { return v == arg }, isConstEq(0), gtRel)
+			same := false
+			for _, v := range resolveParamIn(arg, flush) {
+				if sent(v) {
+					same = true
+				} else {
+					same = false
+					break
+				}
+			}
+			r.ob(prefix+":flush-skips-sent-count", "flush() skips exactly the byte count sendmsg returned", sk.Parent(), sk, same, "Skip("+shortVal(arg)+")", true)
+			pos := cmpAtom(func(v ssa.Value) bool { return v == arg || sent(v) }, isConstEq(0), gtRel)
 			r.guarded(prefix+":flush-skip-guarded", "the skip happens only for n > 0", flush, sk, pos, nil, "guarded by n>0")
-			r.mustPass(prefix+":flush-release-after-skip", "the skipped nodes are released (the sent memory is returned) on every path", flush, sk, []Start{After(sk)}, isOutM("Release"), nil, nil, "Release() follows Skip()")
+			r.mustPass(prefix+":flush-release-after-skip", "the skipped nodes are released (the sent memory is returned) on every path", sk.Parent(), sk, []Start{After(sk)}, isOutM("Release"), nil, nil, "Release() follows Skip()")
 		}
-		if len(findIns(flush, isOutM("Skip"))) == 0 {
-			r.ob(prefix+":flush-skips-sent-count", "flush() acknowledges what was sent", flush, nil, false, "no Skip call", false)
+		if len(skips) == 0 {
+			r.ob(prefix+":flush-skips-sent-count", "flush() acknowledges what was sent", flush, nil, false, "no Skip call reachable after sendmsg", false)
 		}
-		// the send error is examined before the count is trusted... (EAGAIN accepted)
 		// bytes passed to sendmsg come from the output buffer's GetBytes
 		gb := findIns(flush, isOutM("GetBytes"))
 		okSrc := len(gb) == 1 && argVal(&send.Call, 1) == gb[0].(ssa.Value)
@@ -249,4 +263,30 @@ func sendCountRules(r *Run, prefix string) {
 		starts := edgesEstablishing(outputAck, lenZeroFact(true))
 		r.mustPass(prefix+":outputAck-signals-when-drained", "when outputAck finds the buffer drained it signals the flusher", outputAck, nil, starts, func(i ssa.Instruction) bool { return isCall(i, rw2r) }, nil, nil, "rw2r() on every path from the empty edge")
 	}
+}
+
+// resolveParamIn: if v is a parameter of a helper that `caller` calls, return the arguments passed
+// at those call sites (one level); otherwise v itself.
+func resolveParamIn(v ssa.Value, caller *ssa.Function) []ssa.Value {
+	p, ok := v.(*ssa.Parameter)
+	if !ok || p.Parent() == caller {
+		return []ssa.Value{v}
+	}
+	h := p.Parent()
+	idx := -1
+	for i, q := range h.Params {
+		if q == p {
+			idx = i
+		}
+	}
+	var out []ssa.Value
+	forEachIns(caller, func(i ssa.Instruction) {
+		if c, ok := i.(*ssa.Call); ok && c.Call.StaticCallee() == h && idx >= 0 && idx < len(c.Call.Args) {
+			out = append(out, c.Call.Args[idx])
+		}
+	})
+	if len(out) == 0 {
+		return []ssa.Value{v}
+	}
+	return out
 }
